@@ -56,6 +56,7 @@ type WorldCfg struct {
 	Nodes         map[uint64]NodeCfg `json:"nodes"`
 	Prof          Profile            `json:"profile"`
 	NoHeal        bool               `json:"no_heal,omitempty"`
+	SplitHS       bool               `json:"hard_state_in_separate_file,omitempty"` // unsynced hard-state writes are not made durable by a later fsync of log entries only
 	Lease         bool               `json:"lease_based_reads,omitempty"` // nodes with CheckQuorum use ReadOnlyLeaseBased; the C11 oracles are off in such worlds
 }
 
